@@ -100,13 +100,20 @@ Theorem bridge_records_are_ladders : forall n ch skip hb,
 Proof. exact initial_bridges_ok. Qed.
 Print Assumptions bridge_records_are_ladders.
 
+(* ... and every visited residue pair (i, j), j >= i+3, that passes the bridge test and has no incomplete
+   member, sits in some record of its type at matching positions *)
+Theorem bridge_records_complete : forall n ch skip hb ij, In ij (bridge_pairs n) ->
+  qualifies n ch skip hb ij = true -> held n ch hb (initial_bridges n ch skip hb) ij.
+Proof. exact initial_bridges_complete. Qed.
+Print Assumptions bridge_records_complete.
+
 (* PARTIAL.  Full statement: "r is E iff r lies in a ladder of >= 2 consecutive bridges after bulge
    merging, B iff it lies only in isolated bridges", with the ladder set characterised from the bridge
    test alone.  Proved: the statement for H-bond patterns in which no two records qualify for bulge
    merging (hypothesis below), together with strand_marking and bridge_records_are_ladders for the
-   general case.  Missing: a declarative characterisation of the merged ladder list (order-dependent
-   absorption in the "Extend ladders" loop) and completeness of the record list (every bridge pair is
-   in some record); both are exercised by the correspondence only. *)
+   general case, and bridge_records_complete.  Missing: a declarative characterisation of the merged
+   ladder list (order-dependent absorption in the "Extend ladders" loop); exercised by the
+   correspondence only. *)
 Theorem strand_vs_bridge_partial : forall n ch skip hb r, r < n ->
   (forall a b, In a (initial_bridges n ch skip hb) -> In b (initial_bridges n ch skip hb) ->
                should_merge ch a b = false) ->
